@@ -94,13 +94,22 @@ Theorem C18_global_bounds_no_nil_deref : forall inp, ~ In GbPanic (fst (gb_run g
 Proof. intros inp. apply gb_no_panic. intros H. cbn in H. contradiction. Qed.
 Print Assumptions C18_global_bounds_no_nil_deref.
 
-(* (refuted) the full statement "earlier statements never change the meaning": the lastNopToken closures of the WHERE
-   hooks keep state; a statement that stops after "type" makes the next statement's subject binding a TYPE alias.
-   Replayed on the real parser by the check: known finding C18-stale-lastnop. *)
-Theorem C18_stateless_refuted : exists prefix last inp,
+(* no OTHER state outlives a Parse call: regenerated with go/ast from bql/semantic/hooks.go, bql/grammar/parser.go and
+   llk.go on every run.  Exactly the two closures above write captured variables (and exactly the modelled ones); every
+   other hook closure writes no captured or package-level variable; no method of Parser or Grammar assigns a field.
+   Together with C18_stateless_data_bounds_partial: what a statement means depends on its tokens only (the Statement
+   the hooks write into is fresh for every parse).  The translator is in the trusted base. *)
+Theorem C18_no_other_closure_state : closure_state_ok = true.
+Proof. vm_compute. reflexivity. Qed.
+Print Assumptions C18_no_other_closure_state.
+
+(* (what fix 6a45f92 repaired) the lastNopToken variables of the WHERE / projection hooks used to live in the closures:
+   a statement that stopped after "type" made the next statement's subject binding a TYPE alias.  [ws_run] is the OLD
+   closure machine (state carried across statements). *)
+Theorem C18_old_lastnop_closure_refuted : exists prefix last inp,
   snd (ws_run None prefix) = last /\ fst (ws_run last inp) <> fst (ws_run None inp).
 Proof. exact ws_stateless_refuted. Qed.
-Print Assumptions C18_stateless_refuted.
+Print Assumptions C18_old_lastnop_closure_refuted.
 
 (* what the two fix: commits repaired (kept as theorems about the OLD step functions) *)
 Theorem C18_old_data_accumulator_refuted : exists prefix s0 inp,
